@@ -88,6 +88,12 @@ CHECKS.update({
             "Cancellation is issued only while the subscriber is idle in its select (a cancel racing a pending batch is a runtime select choice that cannot be replayed).", "3/C32"),
 })
 
+CHECKS.update({
+    "C36": ("exploration", "deterministic simulation of managed mode with caller-chosen, non-monotonic timestamps and real compactors",
+            "Transactions at arbitrary read timestamps, CommitAt with arbitrary distinct timestamps, managed write batches with per-entry versions and SetDiscardTs movement run against real compactors; every read at or above the discard timestamp must return the newest acknowledged write at or below its timestamp (in-flight commits optional) with the caller's version; at quiescence all keys are re-read at seven timestamps.",
+            "Commit timestamps and per-entry versions are drawn above the range used for SetDiscardTs (committing below the discard timestamp is a caller error that the oracle asserts on). One known finding (process abort of NewManagedWriteBatch after SetDiscardTs with conflict detection on) is probed from a recorded case; one defect found and fixed.", "3/C36"),
+})
+
 PENDING = {}  # property -> reason while not yet implemented
 
 def main():
